@@ -85,3 +85,60 @@ pub fn mutate(rng: &mut Rng, input: &[u8], donor: &[u8]) -> Vec<u8> {
     }
     b
 }
+
+/// The same input with one place spelled another way the format offers for the same thing (a small integer in the
+/// four-byte form or as a one-digit big integer, an atom under another atom tag, a small tuple with a four-byte arity,
+/// the empty list as an empty string or an empty LIST_EXT, a byte string as a list of small integers): one result
+/// per operator and occurrence, at most `cap` in all. Where the occurrence is not really a term the result is just
+/// another hostile input.
+pub fn respellings(input: &[u8], cap: usize) -> Vec<(&'static str, Vec<u8>)> {
+    let mut out: Vec<(&'static str, Vec<u8>)> = Vec::new();
+    let b = input;
+    let mut push = |name: &'static str, at: usize, cut: usize, with: Vec<u8>, out: &mut Vec<(&'static str, Vec<u8>)>| {
+        if out.len() < cap {
+            let mut m = b[..at].to_vec();
+            m.extend_from_slice(&with);
+            m.extend_from_slice(&b[at + cut..]);
+            out.push((name, m));
+        }
+    };
+    for i in 1..b.len() {
+        match b[i] {
+            97 if i + 1 < b.len() => {
+                let n = b[i + 1];
+                push("small-int-as-INTEGER_EXT", i, 2, vec![98, 0, 0, 0, n], &mut out);
+                push("small-int-as-SMALL_BIG_EXT", i, 2, vec![110, 1, 0, n], &mut out);
+            }
+            98 if i + 4 < b.len() && b[i + 1] == 0 && b[i + 2] == 0 && b[i + 3] == 0 => {
+                push("INTEGER_EXT-as-small-int", i, 5, vec![97, b[i + 4]], &mut out);
+            }
+            119 if i + 1 < b.len() => {
+                let l = b[i + 1];
+                push("SMALL_ATOM_UTF8-as-ATOM_UTF8", i, 2, vec![118, 0, l], &mut out);
+                push("SMALL_ATOM_UTF8-as-SMALL_ATOM", i, 2, vec![115, l], &mut out);
+                push("SMALL_ATOM_UTF8-as-ATOM", i, 2, vec![100, 0, l], &mut out);
+            }
+            118 if i + 2 < b.len() && b[i + 1] == 0 => {
+                push("ATOM_UTF8-as-SMALL_ATOM_UTF8", i, 3, vec![119, b[i + 2]], &mut out);
+            }
+            104 if i + 1 < b.len() => {
+                push("SMALL_TUPLE-as-LARGE_TUPLE", i, 2, vec![105, 0, 0, 0, b[i + 1]], &mut out);
+            }
+            106 => {
+                push("NIL-as-empty-STRING_EXT", i, 1, vec![107, 0, 0], &mut out);
+                push("NIL-as-empty-LIST_EXT", i, 1, vec![108, 0, 0, 0, 0, 106], &mut out);
+            }
+            107 if i + 2 < b.len() && b[i + 1] == 0 && (1..=8).contains(&b[i + 2]) && i + 3 + b[i + 2] as usize <= b.len() => {
+                let l = b[i + 2] as usize;
+                let mut with = vec![108, 0, 0, 0, l as u8];
+                for c in &b[i + 3..i + 3 + l] {
+                    with.extend_from_slice(&[97, *c]);
+                }
+                with.push(106);
+                push("STRING_EXT-as-LIST_EXT", i, 3 + l, with, &mut out);
+            }
+            _ => {}
+        }
+    }
+    out
+}
